@@ -248,10 +248,15 @@ class Corr:
 
     def finish(self, drv):
         out = drv.run(self.lines)
-        bit = tol = 0
+        bit = tol = over_budget = 0
         mism = []
         for i, (p, l) in enumerate(zip(self.py, out)):
             r = compare_tokens(p, l, self.max_ulps)
+            if p == 'err:timeout' and l.strip() == 'err:fuel':
+                # the real call exceeded the per-call time limit and the model exhausted its 2 000 000 steps: both say "longer than any
+                # run of interest"; counted apart, not as agreement on a result
+                r = 'tol'
+                over_budget += 1
             if r == 'mismatch' and self.rel > 0 and rel_close(p, l, self.rel):
                 r = 'tol'
             if r == 'bit':
@@ -260,7 +265,7 @@ class Corr:
                 tol += 1
             else:
                 mism.append({'op_line': self.lines[i][:2000], 'python': p[:2000], 'model': l[:2000], 'meta': self.meta[i]})
-        return {'op': self.op, 'cases': len(self.lines), 'bit_identical': bit, 'within_tolerance': tol,
+        return {'op': self.op, 'cases': len(self.lines), 'bit_identical': bit, 'within_tolerance': tol, 'both_over_budget': over_budget,
                 'mismatch': len(mism), 'mismatches': mism[:5]}
 
 
@@ -326,8 +331,13 @@ class Check:
         """time box of the property-level search: it is a bounded effort, enlarged when an obligation broke"""
         self.search_t0 = time.time()
         self.search_budget = {('quick', False): 120, ('quick', True): 300, ('thorough', False): 1200, ('thorough', True): 2400}[(self.tier, bool(broken))]
+        self.search_enlarged = bool(broken)
+        self.known_keys = {k['key'] for k in load_known(self.id)}
 
     def over(self):
+        # the enlarged search (an obligation broke) is there to FIND a failing input: a few unlisted ones are enough
+        if getattr(self, 'search_enlarged', False) and sum(1 for f in self.failures if f.key not in self.known_keys) >= 3:
+            return True
         if time.time() - self.search_t0 > self.search_budget:
             if 'search stopped at its time box' not in self.notes:
                 self.notes.append('search stopped at its time box')
